@@ -672,7 +672,17 @@ func (w *World) isMinPosHelper(fn *ssa.Function, r *Roles) (bool, string) {
 			return false
 		}
 		ia, ok := ld.X.(*ssa.IndexAddr)
-		return ok && ia.X == set
+		if !ok {
+			return false
+		}
+		if ia.X == set {
+			return true
+		}
+		// an element of a sub-slice of the set (`for _, c := range set[1:]` after taking set[0] as the first best)
+		if sl, ok := ia.X.(*ssa.Slice); ok && sl.X == set {
+			return true
+		}
+		return false
 	}
 	// the running best: a phi in a loop whose incoming values are elements of the set (or itself / further such phis)
 	var isBest func(v ssa.Value, seen map[ssa.Value]bool) bool
